@@ -12,7 +12,7 @@ if compact:
     print("|---|---|---|---|")
     for m in rows:
         s = m["summary"]
-        first = "missed — rule added" if ("Initially missed" in s) else "reported only as a missing anchor — rule added" if "anchor" in s and "; rule added" in s else ("caught by another property's check only — clause added" if "Initially caught only" in s or "Initially reported only" in s else "caught")
+        first = "not reported by its own check (no rule found)" if "Not reported by the property's own check" in s else "missed — rule added" if ("Initially missed" in s) else "reported only as a missing anchor — rule added" if "anchor" in s and "; rule added" in s else ("caught by another property's check only — clause added" if "Initially caught only" in s or "Initially reported only" in s else "caught")
         s = s.split(". The first version")[0]
         short = s.split(". Initially")[0].split(" (needs")[0]
         if len(short) > 170:
